@@ -4011,15 +4011,26 @@ class LoopNode(ActionSinkNode, ActionSourceNode):
             everything = set(chr(x) for x in range(256)) | {DFTransition.End}
             return (everything - state.local_alphabet()) | (set(transition.on_values) - {DFTransition.Else})
 
-        start_state = sub_dfa.starting_state
-        if not isinstance(start_state, DFConditionPoint):
-            for accept_state in sub_dfa.accepting_states:
-                if accept_state is start_state or isinstance(accept_state, DFConditionPoint):
+        # the states the next iteration can start matching in (looking through conditions at the top of the body)
+        start_states = []
+        def find_start_states(state):
+            if state in start_states:
+                return
+            if isinstance(state, DFConditionPoint):
+                for conditional in state.transitions:
+                    find_start_states(conditional.target)
+            elif state is not None:
+                start_states.append(state)
+        find_start_states(sub_dfa.starting_state)
+
+        for accept_state in sub_dfa.accepting_states:
+            if accept_state in start_states or isinstance(accept_state, DFConditionPoint):
+                continue
+            for transition in accept_state.all_transitions():
+                if transition.error_handling:
                     continue
-                for transition in accept_state.all_transitions():
-                    if transition.error_handling:
-                        continue
-                    continuing = symbols_matched(accept_state, transition)
+                continuing = symbols_matched(accept_state, transition)
+                for start_state in start_states:
                     for start_transition in start_state.all_transitions():
                         if not start_transition.error_handling and continuing & symbols_matched(start_state, start_transition):
                             raise IllegalDFAStateConflictsError("Ambigious loop: should loop or continue matching", transition, start_transition)
